@@ -69,6 +69,7 @@ type runner struct {
 	edge    []*instance
 	bothOn  []*instance
 	deep    []*instance
+	gen     []*instance // generic generators without optional handlers
 	probe   []*instance // validity probes of the padded space
 	byID    map[string]*instance
 	digits  []int
@@ -107,6 +108,7 @@ func newRunner(ctx *bex.Ctx) *runner {
 	r.edge = get(edgeConfigs(), true)
 	r.bothOn = get(bothOnConfigs(), true)
 	r.deep = get([]cfgSpec{{"generic", "deep28", false, false}}, true)
+	r.gen = get(genericGeneratorConfigs(), true)
 	r.probe = get([]cfgSpec{{"generic", "std", true, false}, {"value", "value", true, false}}, false)
 	return r
 }
